@@ -6,6 +6,7 @@ mod fam_dispatch;
 mod fam_dist;
 mod fam_gen;
 mod fam_len;
+mod fam_misc;
 #[cfg(feature = "serde")]
 mod fam_serde;
 mod fam_stream;
@@ -69,6 +70,7 @@ fn main() {
         }
         "dispatch" => fam_dispatch::run(&mut out, args.seed),
         "c11big" => fam_gen::run_c11big(&mut out, &mut rng, only, !args.extra.iter().any(|x| x == "--no-giant"), !args.extra.iter().any(|x| x == "--only-giant")),
+        "misc" => fam_misc::run(&mut out, &mut rng, args.thorough),
         "agg" => fam_gen::run_agg(&mut out, &mut rng, args.thorough, only),
         "c02" => fam_dist::run_c02(&mut out, &mut rng, args.thorough, only),
         "c08" => fam_dist::run_c08(&mut out, &mut rng, args.thorough, only),
